@@ -126,6 +126,68 @@ def job_zero_and_ceiling(job, nx, rows):
             job.prove(f"ceiling[{tag}]/finite[path{k}][{len(seen)}]", pr.pc + [T.b_lt(T.ZERO, P(rho_f)), T.b_not(cond)], bound=tag, note=why[:80], replay=rp)
 
 
+def replay_ceiling_run(model, nx=3, tdtype="i8"):
+    """Real run on the shipped gas table with a non-integer frac-face pressure close to the initial pressure, whole-day
+    time grid of the given dtype, large steps: in-place recovery against its ceiling 1 - rho(p_f)/rho(p_i)."""
+    import numpy as np
+    from bluebonnet.flow import reservoir as rr
+    from .c04 import _real_fluid
+    fluid = _real_fluid()
+    pf = 7990.6
+    res = rr.SinglePhaseReservoir(max(nx, 80), pf, 8000.0, fluid)
+    t = (np.arange(0, 60) * 500).astype({"i8": "int64", "f8": "float64", "i4": "int32"}[tdtype])
+    res.simulate(t)
+    rf = np.asarray(res.recovery_factor(density=True), float)
+    pp = np.asarray(res.pseudopressure, float)
+    ms, rho = np.asarray(fluid.pvt_props["m-scaled"], float), np.asarray(fluid.pvt_props["density"], float)
+    m_f, m_i = float(fluid.m_scaled_func(pf)), float(fluid.m_i)
+    ceil = 1 - float(np.interp(m_f, ms, rho)) / float(np.interp(m_i, ms, rho))
+    bad = bool(rf.max() > ceil * (1 + 1e-9) + 1e-12 or rf[0] != 0 or pp.min() < m_f - 1e-9 * m_i)
+    return bad, {"what": f"SinglePhaseReservoir on the {t.dtype} time grid {t[:3].tolist()}.., p_f={pf}, p_i=8000, nx={res.nx}: in-place recovery reaches "
+                         f"{rf.max()!r}, ceiling 1 - rho(p_f)/rho(p_i) = {ceil!r}; lowest stored value {pp.min()!r} vs frac-face value {m_f!r}", "inputs": {}}
+
+
+def job_ceiling_run(job, nx, tdtype):
+    """The ceiling for the field the real simulate stores (ideal solve, first step from the real initial state), with
+    the frac-face value of the object's own frac-face pressure - whatever the dtype of the time grid."""
+    mod = load_reservoir()
+    job.encoded(mod, "IdealReservoir.recovery_factor", "SinglePhaseReservoir.simulate")
+    job.solve_defaults = {"abstract": True}
+    tag = f"nx={nx},table=2,{ {'i8': 'int64', 'f8': 'float64'}[tdtype] } time grid"
+
+    def run():
+        SS.LinSolve.reset(policy_exact())
+        SS.reset_names()
+        t, _ = times(2)
+        if tdtype != "f8":
+            t = SymArray(list(t.d), tdtype)
+        fluid = DensityFluid(2)
+        c = ctx()
+        c.assume((lift(fluid.m_i) <= lift(fluid.ms_top)).node)
+        r = mod.SinglePhaseReservoir(Q(nx), fresh("pf"), fresh("pi", pos=True), fluid)
+        mf = fluid.m_scaled_func(r.pressure_fracface)
+        r.simulate(t)
+        rho = SS.Interp1d(fluid.pvt_props["m-scaled"], fluid.pvt_props["density"], fill_value="extrapolate")
+        rfd = r.recovery_factor(density=True)
+        return rfd.d, rho(mf), rho(fluid.m_i), rows_of(r), mf, fluid.m_i
+
+    rp = (replay_ceiling_run, {"nx": nx, "tdtype": tdtype})
+    for k, pr in enumerate(paths(job, run, [], max_paths=256)):
+        if pr.exc is not None:
+            if isinstance(pr.exc, SS.NonMonotoneAbscissae):
+                continue
+            job.errors.append(f"ceiling-run {tag} raised {pr.exc!r}")
+            continue
+        rfd, rho_f, rho_i, rows, mf, m_i = pr.value
+        pos = [T.b_lt(T.ZERO, P(rho_f))]
+        inside = [T.b_le(P(mf), P(x)) for x in rows[1]] + [T.b_le(P(x), P(m_i)) for x in rows[1]]
+        job.prove(f"ceiling-run[{tag}]/stored level inside [frac-face value of the object's pressure, initial][path{k}]",
+                  pr.pc + pos + [T.b_not(T.b_and(*inside))], bound=tag, replay=rp)
+        job.prove(f"ceiling-run[{tag}]/in-place recovery <= 1 - rho(m_f)/rho(m_i) given that[path{k}]",
+                  pr.pc + pos + inside + [T.b_lt(P(rho_i - rho_f), P(rfd[1] * rho_i))], bound=tag, replay=rp)
+        job.prove(f"ceiling-run[{tag}]/reach[path{k}]", pr.pc + pos, expect="sat", elim=True, abstract=False)
+
+
 def job_flux_monotone(job, cls, nx):
     mod = load_reservoir()
     job.encoded(mod, f"{cls}.simulate", "IdealReservoir.recovery_factor")
@@ -334,7 +396,8 @@ def job_flux_is_boundary_derivative(job, nx):
 
 def jobs(tier):
     out = [("flux-derivative-5", lambda j: job_flux_is_boundary_derivative(j, 5)), ("ceiling-3-2", lambda j: job_zero_and_ceiling(j, 3, 2)), ("ceiling-4-2", lambda j: job_zero_and_ceiling(j, 4, 2)),
-           ("scale", job_scale), ("trapezoid-4", lambda j: job_trapezoid(j, 4))]
+           ("scale", job_scale), ("trapezoid-4", lambda j: job_trapezoid(j, 4)),
+           ("ceiling-run-3-float", lambda j: job_ceiling_run(j, 3, "f8")), ("ceiling-run-3-int", lambda j: job_ceiling_run(j, 3, "i8"))]
     for cls in ("SinglePhaseReservoir", "IdealReservoir"):
         out.append((f"flux-{cls[:6]}-3", lambda j, c=cls: job_flux_monotone(j, c, 3)))
     for nx in ((3, 5) if tier == "quick" else (3, 4, 5, 8)):
